@@ -173,6 +173,22 @@ def run_cases(chk, tier):
                 chk.violation(f"bounds/derived-frame-write-raises-{common.err_kind(e)}/{variant}", dict(api="to_parquet", variant=variant, error=repr(e)[:300])); continue
             rep = dict(api="read_parquet_dask", writer="to_parquet", layout=variant, partitions=3)
             check_dataset(chk, r, [dst], dst, rep, [(0, 0, 10, 10), (15, 15, 60, 60)])
+        # packing a frame in which the other geometry column is missing over a whole region of the packed column: an output partition
+        # then holds no geometry at all in that column - its recorded extent is NaN, one row per partition all the same
+        from spatialpandas import GeoDataFrame
+        for npart in (3, 5):
+            n = 24
+            pts = [[(3 * i) % 40, i] for i in range(n)]
+            lines = [None if pts[i][1] < n // 2 else [pts[i][0], pts[i][1], pts[i][0] + 2, pts[i][1] + 1] for i in range(n)]
+            fr = GeoDataFrame({"a": list(range(n)), "pt": geo.make_array("point", pts, "float64"), "ln": geo.make_array("line", lines, "float64")})
+            dst = os.path.join(tmp, f"region_missing_{npart}.parq")
+            try:
+                dd.from_pandas(fr, npartitions=3).pack_partitions_to_parquet(dst, npartitions=npart, p=8)
+            except Exception as e:  # noqa: BLE001
+                chk.violation(f"bounds/pack-raises-{common.err_kind(e)}/other-column-missing-over-a-region", dict(api="pack_partitions_to_parquet", error=repr(e)[:300])); continue
+            rep = dict(api="read_parquet_dask", writer="pack", layout="other-column-missing-over-a-region", partitions=npart)
+            check_dataset(chk, r, [dst], dst, rep, [(0, 0, 40, 5), (0, 15, 40, 30)])
+            check_dataset(chk, r, [dst], dst, dict(rep, layout="other-column-missing-over-a-region/geometry=ln"), [(0, 0, 40, 5), (0, 15, 40, 30)], geometry="ln")
         # the same path written again with other data after it has been read (both writers): what is read is what is there now
         for writer in ("to_parquet", "pack"):
             again = os.path.join(tmp, f"again_{writer}.parq")
